@@ -320,9 +320,13 @@ pub fn run(ctx: &mut Ctx) {
     let mut zero_env = Env::new();
     zero_env.guarded_alloc = Some(0);
     zero_env.out_fill = Some(0);
-    let sel = dfam::Sel { tiny: true, shapes: true, big: !quick, shape_cfg_stride: if quick { 9 } else { 1 } };
+    let sel = dfam::Sel { tiny: true, shapes: true, big: true, shape_cfg_stride: if quick { 9 } else { 1 } };
     dfam::for_each(ctx, &fams, sel, |ctx, it| {
         if quick && it.fam == "tiny" && (it.sched_idx + it.inp.data.len() + it.cfg.level as usize) % 8 != 0 {
+            return;
+        }
+        // quick: the long inputs (checksum kernels over > NMAX bytes, window wrap) under the default schedule and one split only
+        if quick && it.fam == "big" && (it.sched_idx > 1 || it.cfg.mem_level != 8 || it.cfg.strategy % 2 == 1) {
             return;
         }
         ctx.case(
@@ -369,6 +373,43 @@ pub fn run(ctx: &mut Ctx) {
             },
         );
     });
+    // the checksum kernels alone, on long inputs (every CPU mask must give the value of the unmasked run)
+    for (pname, data) in [("ff", rep(0xff, 1 << 20)), ("lcg", lcg_bytes(5, 300_000)), ("ramp", ramp(200_000))] {
+        for chunk in [usize::MAX, 65536, 5568, 5552, 4097] {
+            for off in [0usize, 1, 13, 31] {
+                ctx.case(
+                    "checksum-twins",
+                    || format!("adler32/crc32 over {} bytes of {pname} starting at offset {off}, fed in pieces of {}", data.len() - off, if chunk == usize::MAX { "everything".to_string() } else { chunk.to_string() }),
+                    |c| {
+                        let d = &data[off..];
+                        let run = || {
+                            let (mut a, mut k) = (1u32, 0u32);
+                            for piece in d.chunks(chunk.min(d.len())) {
+                                a = zlib_rs::adler32::adler32(a, piece);
+                                k = zlib_rs::crc32::crc32(k, piece);
+                            }
+                            (a, k)
+                        };
+                        cpu::set_cpu_mask(0);
+                        c.exec();
+                        let base = run();
+                        for (name, mask) in masks {
+                            cpu::set_cpu_mask(mask);
+                            c.exec();
+                            let r = run();
+                            cpu::set_cpu_mask(0);
+                            if r != base {
+                                return Err(format!("CPU mask {name}: adler32/crc32 = {:#x}/{:#x}, unmasked run gives {:#x}/{:#x}", r.0, r.1, base.0, base.1));
+                            }
+                        }
+                        c.outcome(hash_u32s(&[base.0, base.1]));
+                        c.validated();
+                        Ok(())
+                    },
+                );
+            }
+        }
+    }
     // streams reused after reset with a different earlier history
     let menv = MEnv::new();
     let hist_a = text(3, 4000);
